@@ -127,6 +127,7 @@ type Session struct {
 	reads       []string
 	base        int
 	gid         string
+	hold        bool // the gate delivers no step: a helper goroutine will (Hold/Release)
 	abort       string
 	syncErr     bool
 	progress    int
@@ -272,7 +273,7 @@ func (s *Session) gateRead(inner io.ReadCloser, p []byte) (int, error) {
 			s.outstanding = 0
 		}
 	}
-	if s.outstanding == 0 && s.T.Pending() == 0 {
+	if s.outstanding == 0 && s.T.Pending() == 0 && !s.hold {
 		need = true
 	}
 	s.mu.Unlock()
@@ -415,6 +416,7 @@ func (s *Session) Call(plan, exit []Step) *Result {
 	unix.IoctlSetInt(0, unix.TCFLSH, unix.TCIFLUSH)
 	s.mu.Lock()
 	s.plan, s.exit = plan, exit
+	s.hold = false
 	s.ladder = nil
 	if !s.Cfg.NoLadder {
 		s.ladder = DefaultLadder
@@ -626,6 +628,76 @@ func classifyDeadlock(d1, d2 string) bool {
 		return !strings.Contains(strings.SplitN(f1, "|", 2)[0], "sess.")
 	}
 	return false
+}
+
+// Hold stops the gate from delivering plan steps: the main loop just goes to its terminal read.
+// A helper goroutine started by a step action delivers the next step itself (TakeSteps + a write
+// to the terminal) and then calls Release. Used to let an asynchronous disturbance run to its
+// end while the main loop is really parked in its read.
+func (s *Session) Hold() {
+	s.mu.Lock()
+	s.hold = true
+	s.mu.Unlock()
+}
+
+// Release ends a Hold.
+func (s *Session) Release() {
+	s.mu.Lock()
+	s.hold = false
+	s.mu.Unlock()
+}
+
+// InRead reports whether the Readline goroutine is inside its terminal read.
+func (s *Session) InRead() bool {
+	s.mu.Lock()
+	defer s.mu.Unlock()
+	return s.inRead
+}
+
+// LastWaitKind is the kind ("main" / "arg") of the most recent input wait. To be called from a
+// step action (Readline goroutine).
+func (s *Session) LastWaitKind() string {
+	if n := len(s.waits); n > 0 {
+		return s.waits[n-1].Kind
+	}
+	return ""
+}
+
+// AllStacks returns a dump of all goroutines.
+func AllStacks() string { return allStacks() }
+
+// Stanzas returns the goroutine stanzas of a dump that contain the marker.
+func Stanzas(dump, marker string) []string {
+	var out []string
+	for _, g := range strings.Split(dump, "\n\n") {
+		if strings.Contains(g, marker) {
+			out = append(out, g)
+		}
+	}
+	return out
+}
+
+// BlockState returns the wait state and the function frames of a goroutine stanza.
+func BlockState(g string) (state string, frames []string) {
+	lines := strings.Split(g, "\n")
+	if len(lines) == 0 {
+		return
+	}
+	if i := strings.Index(lines[0], "["); i >= 0 {
+		state = strings.TrimSuffix(lines[0][i+1:], "]:")
+		if j := strings.Index(state, ","); j >= 0 {
+			state = state[:j]
+		}
+	}
+	for _, l := range lines[1:] {
+		if !strings.HasPrefix(l, "\t") && l != "" {
+			if k := strings.LastIndex(l, "("); k > 0 {
+				l = l[:k]
+			}
+			frames = append(frames, l)
+		}
+	}
+	return
 }
 
 // ReadlineStack returns the Readline goroutine's part of a dump.
